@@ -128,7 +128,12 @@ func (a *AgentService) SendResponse(AgentInfo any, Header agent.Header) []byte {
 
     var data []byte
     if channel, ok := a.client.Responses[randID]; ok {
-        data = <-channel
+        // the service may disconnect instead of answering: the agent's request must
+        // not wait for ever then
+        select {
+        case data = <-channel:
+        case <-a.client.Done:
+        }
 
         close(a.client.Responses[randID])
         delete(a.client.Responses, randID)
